@@ -7,7 +7,7 @@
 //! 2020 / 2021 maybe_cross_normalize_to_ref / _to_mut (input = a, k = target radix): out = [base2k rank size] ; data
 //! 2022 / 2023 ggsw_rotate / ggsw_rotate_assign: ps = be n scr k | rb rrank rsize rdnum rdsize | ab ... | srank   vs = res ; a ; secret
 //! 2030 / 2031 straight-line programs: ps = be n scr base2k nregs nops srank | (rank size)*nregs | (opc d x y k)*nops
-//!                               vs = regs... ; secret               out = regs'...
+//!                               vs = regs... ; secret               out = regs'... (2030) | destination register after every step (2031)
 use poulpy_core::api::*;
 use poulpy_core::layouts::{Base2K, Degree, Dnum, Dsize, GGSW, GLWE, GLWEInfos, LWEInfos, Rank, TorusPrecision};
 use poulpy_hal::api::{ScratchOwnedAlloc, ScratchOwnedBorrow};
@@ -131,14 +131,17 @@ fn op(r: &Rec) -> Vec<Vec<i128>> {
                 let (nregs, nops) = (u(4), u(5));
                 let mut regs: Vec<GLWE<Vec<u8>>> = (0..nregs).map(|i| mk_glwe(n, b2k, u(7 + 2 * i), u(8 + 2 * i), &r.vs[i])).collect();
                 let base = 7 + 2 * nregs;
+                let mut trace: Vec<Vec<i128>> = Vec::new();
                 for t in 0..nops {
                     let (opc, d, x, y, kk) = (p[base + 5 * t] as i64, u(base + 5 * t + 1), u(base + 5 * t + 2), u(base + 5 * t + 3), p[base + 5 * t + 4]);
                     let a = regs[x].clone();
                     let b = regs[y].clone();
                     let res = &mut regs[d];
                     apply_op!(m, opc, kk, res, &a, &b, win);
+                    trace.push(dump_glwe(&regs[d]));
                 }
-                regs.iter().map(dump_glwe).collect()
+                // 2030: the final register file; 2031: the destination register after every step
+                if code == 2030 { regs.iter().map(dump_glwe).collect() } else { trace }
             }
             _ => panic!("c02: unknown op {}", code),
         }
@@ -272,7 +275,7 @@ fn ggsw(rng: &mut Rng, code: i64, be: i128) -> Rec {
 /// random straight-line program of length <= 12 over 4 registers (ranks r, r, 0, r; independent sizes), admissible steps only
 fn program(rng: &mut Rng, code: i64, be: i128) -> Rec {
     let n = pick_n(rng);
-    let b = pick_b(rng).max(4);
+    let b = if code == 2031 { pick_b(rng).clamp(4, 40) } else { pick_b(rng).max(4) };
     let r = rng.range(0, 3) as usize;
     let ranks = [r, r, 0usize, r];
     let nregs = 4usize;
@@ -290,8 +293,7 @@ fn program(rng: &mut Rng, code: i64, be: i128) -> Rec {
             1 | 3 => {
                 if ranks[d] == 0 { (2, 2) } else { let x = any(rng); let y = if ranks[x] == 0 { rng.pick(&full) } else { any(rng) }; (x, y) }
             }
-            5 => { let x = if r > 0 && ranks[d] == r { rng.pick(&full) } else if ranks[d] == 0 && r > 0 { 2 } else { any(rng) }; (x, 0) }   // rank-0 operand into a ciphertext: see the single-call class
-            2 | 4 | 8 | 9 | 15 | 16 | 17 => { let x = if ranks[d] == 0 && r > 0 { 2 } else if matches!(opc, 15 | 16 | 17) && ranks[d] == r { rng.pick(&full) } else { any(rng) }; (x, 0) }
+            2 | 4 | 5 | 8 | 9 | 15 | 16 | 17 => { let x = if ranks[d] == 0 && r > 0 { 2 } else { any(rng) }; (x, 0) }   // source of equal or lower (0) rank
             6 | 11 | 18 => (rng.pick(&full), 0),
             _ => (0, 0),
         };
